@@ -12,18 +12,36 @@ RULE = ("connstate: every sequential order (= every schedule at method granulari
         "(quick) / 5 (thorough) plus random longer ones; non-trivial = two or more closers race or an update tries to move backwards. "
         "connerr: histories over streams (open/accept/write/flush/shutdown/read), datagrams, parameters and flow control with "
         "operations of every kind left pending, the connection error injected at EVERY position of the history (also twice with "
-        "different errors = closes racing from both sides), followed by one later operation of every kind; non-trivial = at least two "
+        "different errors = closes racing from both sides), followed by one later operation of every kind; the error also RACING a poll of open/accept (op 24: the poll is "
+        "stalled inside its critical section on a second thread while the fan-out runs on a third - the one schedule of poll vs close that no "
+        "sequential history expresses), exhaustively over role x 0-RTT memory x handshake x stream limit used up or not x kind of poll, and in place "
+        "of the plain error in a share of the histories; non-trivial = at least two "
         "different kinds of operation pending when the error strikes. idle: effective payload, then health checks every 10 ms and at "
         "defer / defer+max_idle -1, +0, +1 ms, with non-effective packets in between and renegotiated max_idle; non-trivial = a health "
-        "check within 1 ms of a boundary. Distinct by hash of cfg + op list.")
+        "check within 1 ms of a boundary. connend: REAL client and server endpoints (dquic over the in-memory network, paused time); "
+        "operations of nine kinds (open_bi/uni, accept_bi/uni, datagram recv, datagram_writer, handshaked, terminated, stream read) "
+        "started in every subset position (before the handshake, after it, after the end) on both endpoints; the connection ended by the "
+        "server refusing the client at the ClientHello, by a local close during the handshake, by either application closing an "
+        "established connection (short or long after the operations started), by both closing at once, or not at all; then one later "
+        "operation of every kind on both endpoints; non-trivial = the connection is ended with at least two kinds of operation started "
+        "before on one endpoint. Distinct by hash of cfg + op list.")
 TRUSTED_BASE = ["coq/Generated/StateTable.v (state codes, enter_* targets, the update comparison) is regenerated from "
                 "qconnection/src/state.rs and events.rs by tools/extract_state.py on every run (fail closed)",
-                "the connerr harness plays the executor: a parked task is re-polled only after its own counting waker fired"]
+                "the connerr harness plays the executor: a parked task is re-polled only after its own counting waker fired",
+                "connerr op 24 (a poll racing the close) uses two OS threads and forces ONE schedule: the poll is stalled on the "
+                "ArcParameters lock the harness holds, the fan-out runs until its thread sleeps in the kernel (state S in "
+                "/proc/<pid>/task/<tid>/stat = blocked on a guard) or finishes, then the lock is released; other schedules of the two "
+                "threads are covered by the sequential histories (poll first / close first) and by the proof at lock granularity",
+                "connend: the stack between the two applications (TLS, packets, timers, tokio) is exercised, not modelled; the model "
+                "predicts only which application operation completes at which observation point and how; the generator keeps every "
+                "observation either < 5 ms (nothing crossed the 5 ms link) or >= 500 ms (everything settled) after an event"]
 MODELLED = ("qconnection/src/state.rs ArcConnState (atomic granularity, any number of racing callers); qbase/src/time.rs IdleConfig/"
             "IdleTimer; the poisoning pattern of qrecovery DataStreams (output/input/listener, Outgoing/Incoming/Writer/Reader, "
             "LocalStreamIds wakers), qdatagram DatagramFlow, qbase ArcParameters and FlowController with every waker slot explicit. "
+            "qconnection::Components::enter_closing / enter_draining end to end at the level of application-visible completions "
+            "(Model/ConnEnd.v; driven through the real dquic client and server, TLS handshake object's on_conn_error included). "
             "NOT modelled (level partial): tokio::spawn of the closing/draining timers and of send_ccf_packets, Terminator, "
-            "RcvdPacketQueue::close_all, path teardown, real sockets, qconnection::tls on_conn_error; try_entry_attempted is modelled "
+            "RcvdPacketQueue::close_all, path teardown, real sockets; try_entry_attempted is modelled "
             "but not driven (it needs a full Components); FlowController::on_conn_error is modelled and driven although nothing in "
             "qconnection calls it")
 ASSUMPTIONS = ["Event::Terminated is emitted only by the timer spawned in Components::enter_closing/enter_draining, i.e. after the "
@@ -32,9 +50,9 @@ ASSUMPTIONS = ["Event::Terminated is emitted only by the timer spawned in Compon
                "one task per single-waker slot (a Writer/Reader/accept future is polled by one task at a time, as &mut self enforces)",
                "SetOnce::set, AtomicU8 load/compare_exchange and each Mutex-protected section are atomic steps"]
 MANIFEST = {
-    "text": "Machine-checked Coq theorems (Properties/C17.v). c17_monotone: in the atomic-granularity model of ArcConnState (load / compare_exchange / SetOnce::set are single steps, any number of racing update / enter_handshaked / enter_closing / enter_draining / Terminated callers, every schedule) the state word never decreases, and the codes regenerated from state.rs are ordered attempted < handshake_confirmed < closing < draining < closed. c17_error_once: under every schedule no expect()/unreachable!() fires, the terminating error never changes once set, it is set only at/after the closing code and is set whenever the word reached the closing code and no step is pending. c17_release: after on_conn_error e every task registered in any waker slot (senders' write/flush/shutdown, receivers' read, listener bi/uni, stream-id waiters, parameter waiters, datagram reader) has a pending wake and no slot keeps a sleeper; in every later state every open/accept/datagram/parameter operation returns e, every stream read/write/flush/shutdown returns e or the stream half's own terminal result, none is Pending, no write or datagram is accepted, nothing is emitted and no receive buffer grows. c17_idle_not_before / c17_idle_after (RFC 9000 10.1 terms, repaired IdleTimer): health() answers TimeOut only if the last restart of the idle period (a received effective packet, or the FIRST effective packet sent after a receive) is older than defer+max_idle and no packet at all arrived for max_idle, and always answers TimeOut once a health check has seen defer exceeded and more than max_idle passed with nothing received - whatever is sent meanwhile (retransmission does not postpone the timeout; c17_idle_retransmit_regression keeps the pre-F65 rule as a refuted example). c17_update_public: update() of every public state constant (CLOSED included, F40 repaired) is total and a forward move. c17_flag_constant: no operation writes the model's fix flag; c17_pending_registers: a Pending poll leaves its task in a waker slot. c17_release_all lifts this to whole histories: any error-free history, then the error, then any further history of any operations (a second racing error included) leaves the connection poisoned with the first error. The as-is tree's F23 (pending open_bi/open_uni not woken) is kept as c17_release_refuted + the conditional theorem; the default workspace verifies the repaired tree. Models and the real ArcConnState / DataStreams+DatagramFlow+FlowController+ArcParameters / IdleTimer are driven with the same histories every run, the connection error at every position.",
-    "note": "Level partial by design: task spawning (tokio::spawn of the closing/draining timers, send_ccf_packets), the Terminator, RcvdPacketQueue::close_all, path teardown and real sockets are runtime behaviour the model does not exhibit; the TLS handshake object's on_conn_error is not driven. ArcConnState is driven at method granularity only (atomic interleavings are covered by the proof, not by execution). Trusted: Coq kernel, table translator, extraction, harness (which plays the executor), Python oracle.",
-    "technique": "Coq proof (inductive invariant over all interleavings of a small-step atomic model; structural lemmas over the poisoned components; invariant over timer histories) tied by a regenerated state table + differential correspondence on three streams",
+    "text": "Machine-checked Coq theorems (Properties/C17.v). c17_monotone: in the atomic-granularity model of ArcConnState (load / compare_exchange / SetOnce::set are single steps, any number of racing update / enter_handshaked / enter_closing / enter_draining / Terminated callers, every schedule) the state word never decreases, and the codes regenerated from state.rs are ordered attempted < handshake_confirmed < closing < draining < closed. c17_error_once: under every schedule no expect()/unreachable!() fires, the terminating error never changes once set, it is set only at/after the closing code and is set whenever the word reached the closing code and no step is pending. c17_release: after on_conn_error e every task registered in any waker slot (senders' write/flush/shutdown, receivers' read, listener bi/uni, stream-id waiters, parameter waiters, datagram reader) has a pending wake and no slot keeps a sleeper; in every later state every open/accept/datagram/parameter operation returns e, every stream read/write/flush/shutdown returns e or the stream half's own terminal result, none is Pending, no write or datagram is accepted, nothing is emitted and no receive buffer grows. c17_idle_not_before / c17_idle_after (RFC 9000 10.1 terms, repaired IdleTimer): health() answers TimeOut only if the last restart of the idle period (a received effective packet, or the FIRST effective packet sent after a receive) is older than defer+max_idle and no packet at all arrived for max_idle, and always answers TimeOut once a health check has seen defer exceeded and more than max_idle passed with nothing received - whatever is sent meanwhile (retransmission does not postpone the timeout; c17_idle_retransmit_regression keeps the pre-F65 rule as a refuted example). c17_update_public: update() of every public state constant (CLOSED included, F40 repaired) is total and a forward move. c17_flag_constant: no operation writes the model's fix flag; c17_pending_registers: a Pending poll leaves its task in a waker slot. c17_release_all lifts this to whole histories: any error-free history, then the error, then any further history of any operations (a second racing error included) leaves the connection poisoned with the first error. c17_race_release: the close racing a poll of open/accept that is already inside its critical section (lock-section granularity; everything the fan-out does to the stream tables, the listener and the stream-id waiters is under the guards the poll holds): the poll answers against the healthy state, and if it parked, the close wakes it; the harness forces this schedule on the real DataStreams with two threads. c17_end_all / c17_end_codes (Model/ConnEnd.v, both endpoints end to end): after any history, at every observation point no operation is left pending on an endpoint whose terminated() has resolved, completions there carry the terminating error, and the endpoint stays terminated; the REAL dquic client and server are driven with the same histories (server refusing the client during the handshake, local close during the handshake, either side closing an established connection, both at once) and must answer as the model. The as-is tree's F23 (pending open_bi/open_uni not woken) is kept as c17_release_refuted + the conditional theorem; the default workspace verifies the repaired tree. Models and the real ArcConnState / DataStreams+DatagramFlow+FlowController+ArcParameters / IdleTimer / dquic endpoints are driven with the same histories every run, the connection error at every position.",
+    "note": "Level partial by design: task spawning (tokio::spawn of the closing/draining timers, send_ccf_packets), the Terminator, RcvdPacketQueue::close_all, path teardown and real sockets are runtime behaviour the model does not exhibit (the connend stream exercises them on real endpoints but proves nothing about them). ArcConnState is driven at method granularity only (atomic interleavings are covered by the proof, not by execution). Trusted: Coq kernel, table translator, extraction, harness (which plays the executor), Python oracle.",
+    "technique": "Coq proof (inductive invariant over all interleavings of a small-step atomic model; structural lemmas over the poisoned components; invariant over timer histories) tied by a regenerated state table + differential correspondence on four streams (one of them on real client/server endpoints, one with a forced two-thread schedule)",
     "level": "partial",
 }
 
@@ -324,7 +342,7 @@ def mutate_idle(rng, case, j):
 # ======================================================================================== connerr
 TASK_TAGS = (1, 2, 3, 4, 5, 6, 7, 10)
 NAMES = {0: "handshake", 1: "open", 2: "accept", 3: "write", 4: "flush", 5: "shutdown", 6: "read", 7: "dgrecv", 8: "dgsend",
-         10: "pready", 11: "peeropen", 12: "data", 13: "fingap", 14: "preset", 15: "pstop", 16: "maxsd", 17: "maxstreams",
+         10: "pready", 24: "RACE", 11: "peeropen", 12: "data", 13: "fingap", 14: "preset", 15: "pstop", 16: "maxsd", 17: "maxstreams",
          18: "load", 19: "ack", 20: "dgram", 21: "CONNERR", 22: "FLOWERR", 23: "credit"}
 
 
@@ -351,8 +369,12 @@ def history_alphabet(role):
             (8, [1197]), (8, [1198]), (8, [63]), (8, [64])]
 
 
-def with_error_at(ops, pos, role, eid, second=None, flowerr=False):
-    out = list(ops[:pos]) + [(21, [eid])]
+RACE_KINDS = [(1, 0), (1, 1), (2, 0), (2, 1)]        # (task tag, dir): open bi/uni, accept bi/uni
+
+
+def with_error_at(ops, pos, role, eid, second=None, flowerr=False, race=None):
+    """race = (task tag, dir): the error strikes while that poll is inside its critical section (op 24)"""
+    out = list(ops[:pos]) + [(21, [eid]) if race is None else (24, [eid, race[0], race[1]])]
     if flowerr:
         out.append((22, [eid + 1]))
     rest = list(ops[pos:])
@@ -381,6 +403,22 @@ def gen_connerr(rng, tier):
                             continue
                         cases.append(Case("x%d" % n, with_error_at(base, pos, role, 7 + pos), cfg=[role, mem, 1, 1, 10]))
                         n += 1
+    # the close racing a poll: role x memory x (before/after the handshake) x (stream limit 0 / used up / free) x
+    # what else is parked x the kind of the racing poll; the race at the end of the prefix and, for short prefixes,
+    # at every position
+    for role in (0, 1):
+        ours, peer = sids_for(role)
+        for mem in ((0, 1) if role == 0 else (0,)):
+            for lim in (0, 1, 2):
+                for pre_hs in (True, False):
+                    for others in ([], [(2, [0]), (2, [1])], [(1, [0]), (1, [1])], [(10, []), (7, [])],
+                                   [(1, [0]), (3, [ours[0], 12]), (6, [ours[0], 8])], [(11, [0]), (11, [1])]):
+                        base = ([(0, [])] if pre_hs else []) + [(1, [0])] * min(lim, 1) + [(1, [1])] * min(lim, 1) + others
+                        for rk in RACE_KINDS:
+                            for pos in (range(len(base) + 1) if len(base) <= 3 else (len(base),)):
+                                cases.append(Case("k%d" % n, with_error_at(base, pos, role, 11 + pos, race=rk),
+                                                  cfg=[role, mem, lim, lim, 10]))
+                                n += 1
     nrand = 1200 if tier == "quick" else 25000
     for i in range(nrand):
         role = rng.randint(0, 1)
@@ -402,7 +440,12 @@ def gen_connerr(rng, tier):
         pos = rng.randrange(len(ops) + 1)
         eid = rng.choice([3, 7, 41, 101, 102, 203])
         second = rng.choice([None, None, eid + 1, 150])
-        cases.append(Case("r%d" % i, with_error_at(ops, pos, role, eid, second, rng.random() < 0.3), cfg=cfg))
+        race = rng.choice(RACE_KINDS) if rng.random() < 0.3 else None
+        ops = with_error_at(ops, pos, role, eid, second, rng.random() < 0.3, race)
+        if rng.random() < 0.15:
+            # a poll racing a (second) close of a connection that may have failed already
+            ops.insert(rng.randrange(pos + 1, len(ops) + 1), (24, [eid + 2] + list(rng.choice(RACE_KINDS))))
+        cases.append(Case("r%d" % i, ops, cfg=cfg))
     return cases
 
 
@@ -441,11 +484,24 @@ def oracle_connerr(case, obs):
     shut, loaded_after_shut = set(), set()
     for k, ((tag, args), line) in enumerate(zip(case.ops, obs)):
         res, wok, comp = parse_connerr(line)
+        if tag == 24 and err is None and len(args) == 3 and res and res[0] == 0:
+            parked[k] = (args[1], args[2:])    # the racing poll parked while the close was under way: the close must complete it
         for (t, code, val) in comp:
             if t not in parked:
                 return "executor: op %d completes task %d which is not parked" % (k, t)
         # ---------------- the clauses
-        if tag == 21 and err is None:
+        if tag == 24:
+            # a poll of open / accept racing the connection error: the operation answers with the poll's own result
+            if not res or res[0] == -77:
+                return "abnormal: op %d: the racing schedule could not be set up (%s)" % (k, res)
+            if len(args) != 3 or args[1] not in (1, 2):
+                return "abnormal: op %d: malformed race" % k
+            ttag, targs = args[1], args[2:]
+            if err is None:
+                code, val = res[0], res[1]
+                if code == 2 and val != args[0]:
+                    return "wrong-error: op %d racing %s answers error %d, the connection error is %d" % (k, NAMES[ttag], val, args[0])
+        if (tag == 21 or tag == 24) and err is None:
             err, err_at = args[0], k
             done = {t: (c, v) for (t, c, v) in comp}
             for t, (ptag, pargs) in sorted(parked.items()):
@@ -456,7 +512,9 @@ def oracle_connerr(case, obs):
                 if done[t] != (2, err):
                     return "wrong-error: pending %s task %d completed with %s after connection error %d" % (NAMES[ptag], t, done[t], err)
         elif err is not None:
-            if tag in TASK_TAGS:
+            if tag in TASK_TAGS or tag == 24:
+                if tag == 24:
+                    tag, args = args[1], args[2:]      # later on it is judged as the task operation it carries
                 code, val = res[0], res[1]
                 if code == 0:
                     return "blocks: op %d (%s %s) is Pending after the connection error" % (k, NAMES[tag], args)
@@ -497,7 +555,7 @@ def oracle_connerr(case, obs):
             ptag, pargs = parked.pop(t)
             if ptag == 6 and code == 1:
                 readn[pargs[0]] = readn.get(pargs[0], 0) + val
-        if tag in TASK_TAGS and res and res[0] == 0:
+        if tag in TASK_TAGS and res and res[0] == 0 and k not in parked:
             parked[k] = (tag, args)
         if tag == 6 and res and res[0] == 1 and err is None:
             readn[args[0]] = readn.get(args[0], 0) + res[1]
@@ -539,6 +597,9 @@ def nontrivial_connerr(case):
     for tag, args in case.ops:
         if tag == 21:
             break
+        if tag == 24:
+            kinds.add(args[1])
+            break
         if tag in TASK_TAGS:
             kinds.add(tag)
     return len(kinds) >= 2
@@ -546,9 +607,12 @@ def nontrivial_connerr(case):
 
 def hist_connerr(case):
     out = []
-    pos = next((i for i, (t, _) in enumerate(case.ops) if t == 21), None)
+    pos = next((i for i, (t, _) in enumerate(case.ops) if t in (21, 24)), None)
     out.append("err-at:%s" % ("none" if pos is None else "0" if pos == 0 else "1-3" if pos <= 3 else "4-9" if pos <= 9 else "10+"))
-    out.append("errors:%d" % sum(1 for t, _ in case.ops if t == 21))
+    out.append("errors:%d" % sum(1 for t, _ in case.ops if t in (21, 24)))
+    for t, a in case.ops:
+        if t == 24:
+            out.append("race:%s%s%s" % (NAMES.get(a[1], "?"), "-bi" if a[2] == 0 else "-uni", "" if case.ops[pos] == (t, a) else "-late"))
     before = case.ops[:pos] if pos is not None else case.ops
     out += sorted(set("pre:" + NAMES.get(t, str(t)) for t, _ in before))
     out.append("role:%s mem:%s" % (case.cfg[0], case.cfg[1]))
@@ -558,9 +622,173 @@ def hist_connerr(case):
 def mutate_connerr(rng, case, j):
     role = int(case.cfg[0])
     ops = [o for o in case.ops]
-    pos = next((i for i, (t, _) in enumerate(ops) if t == 21), 0)
+    pos = next((i for i, (t, _) in enumerate(ops) if t in (21, 24)), 0)
     ins = rng.choice(history_alphabet(role))
     ops.insert(rng.randrange(pos + 1), ins)
+    return Case("m%d" % j, ops, cfg=case.cfg)
+
+
+# ======================================================================================== connend
+# REAL dquic endpoints over the in-memory network (harness/hx impl_connend): operations of every kind pending on
+# both endpoints while the connection is ended through the real Components::enter_closing / enter_draining
+KINDS_E = {1: "open_bi", 2: "open_uni", 3: "accept_bi", 4: "accept_uni", 5: "dgram_recv", 6: "dgram_writer",
+           7: "handshaked", 8: "terminated", 9: "stream_read"}
+SIDES_E = {0: "client", 1: "server"}
+SHORT, LONG = 1, 1000
+
+
+def ce_starts(side, kinds):
+    return [(1, [side, k]) for k in kinds]
+
+
+def gen_connend(rng, tier):
+    cases = []
+    n = [0]
+    allk = list(range(1, 10))
+
+    def add(prefix, refuse, ops):
+        # every case ends with one later operation of every kind on both endpoints and a last observation point
+        ops = list(ops) + ce_starts(0, allk) + ce_starts(1, allk) + [(2, [LONG]), (2, [LONG])]
+        cases.append(Case("%s%d" % (prefix, n[0]), ops, cfg=[refuse]))
+        n[0] += 1
+
+    subsets = [[k] for k in allk] + [allk, [3, 6], [1, 3, 4, 5], [9, 3, 7]]
+    nsub = len(subsets) if tier != "quick" else 0
+    pick = subsets if tier != "quick" else [allk, [3], [6], [3, 6], [1, 3, 4, 5], [9, 7, 8, 2]]
+    # R: the server refuses the client during the handshake (peer CONNECTION_CLOSE before the peer's parameters)
+    for ks in pick:
+        add("R", 1, ce_starts(0, ks) + [(2, [LONG])])
+        add("R", 1, ce_starts(0, ks) + [(2, [SHORT])] + ce_starts(0, [k for k in allk if k not in ks][:3]) + [(2, [LONG])])
+    # L: local close during the handshake
+    for ks in pick:
+        add("L", 0, ce_starts(0, ks) + [(2, [SHORT]), (3, [0, 7]), (2, [SHORT])])
+        add("L", 0, ce_starts(0, ks) + [(3, [0, 7]), (2, [LONG])])
+    # E: established, then either application closes (local close on one endpoint = peer close on the other)
+    for ks in pick:
+        for closer in (0, 1):
+            for gap in (SHORT, LONG):
+                add("E", 0, ce_starts(0, ks[:2]) + [(2, [LONG])] + ce_starts(0, ks) + ce_starts(1, ks) +
+                    [(2, [gap]), (3, [closer, 3]), (2, [LONG])])
+    # both applications close at the same instant (closes racing from both sides)
+    for ks in pick[:3]:
+        add("B", 0, [(2, [LONG])] + ce_starts(0, ks) + ce_starts(1, ks) + [(3, [0, 1]), (3, [1, 2]), (2, [SHORT])])
+    # N: nobody closes
+    add("N", 0, ce_starts(0, allk) + [(2, [SHORT]), (2, [LONG])] + ce_starts(1, allk) + [(2, [LONG])])
+    nrand = 12 if tier == "quick" else 400
+    for i in range(nrand):
+        refuse = 1 if rng.random() < 0.3 else 0
+        ops = []
+        shorts = 0
+        for _ in range(rng.randint(2, 7)):
+            r = rng.random()
+            if r < 0.5:
+                ops += ce_starts(rng.randint(0, 1), rng.sample(allk, rng.randint(1, 4)))
+            elif r < 0.8:
+                if shorts < 2 and rng.random() < 0.4:
+                    shorts += 1
+                    ops.append((2, [SHORT]))
+                else:
+                    ops.append((2, [LONG]))
+            else:
+                ops.append((3, [rng.randint(0, 1), rng.randint(0, 9)]))
+        add("r", refuse, ops)
+    return cases
+
+
+def parse_adv(v):
+    n = v[1]
+    comp = [(v[2 + 2 * i], v[3 + 2 * i]) for i in range(n)]
+    return v[0], comp, v[2 + 2 * n], v[3 + 2 * n]
+
+
+def oracle_connend(case, obs):
+    """C17 stated directly on what the applications of the two real endpoints observed: once terminated() has
+    resolved on an endpoint, every operation that was pending there has completed by that observation point and
+    every operation started later completes by the next one, all of them with the terminating error."""
+    if len(obs) != len(case.ops):
+        return "length: %d observations for %d ops (%s)" % (len(obs), len(case.ops), obs[-1] if obs else "")
+    for k, line in enumerate(obs):
+        if line.startswith("!"):
+            return "abnormal: op %d -> %s" % (k, line)
+    pending = {}              # tid -> (side, kind, started at op)
+    term_seen = [None, None]  # op index of the first observation point at which terminated() had resolved
+    now = 0
+    for k, ((tag, args), line) in enumerate(zip(case.ops, obs)):
+        v = ints(line)
+        if v == [-99]:
+            continue
+        if tag == 1:
+            if v[0] >= 0:
+                if v[0] != k:
+                    return "harness: op %d task id %d" % (k, v[0])
+                pending[k] = (min(args[0], 1), args[1], k)
+        elif tag == 2:
+            t, comp, tc, ts = parse_adv(v)
+            if t < now:
+                return "clock: op %d reports %d ms after %d ms" % (k, t, now)
+            now = t
+            flags = [tc, ts]
+            for side in (0, 1):
+                if term_seen[side] is not None and not flags[side]:
+                    return "revived: op %d: terminated() of the %s had resolved at op %d and is unresolved now" % (
+                        k, SIDES_E[side], term_seen[side])
+            first = [flags[s] and term_seen[s] is None for s in (0, 1)]
+            for s in (0, 1):
+                if first[s]:
+                    term_seen[s] = k
+            for (tid, code) in comp:
+                if tid not in pending:
+                    return "harness: op %d completes task %d which is not pending" % (k, tid)
+                side, kind, at = pending.pop(tid)
+                what = "%s of the %s (task %d)" % (KINDS_E.get(kind, kind), SIDES_E[side], tid)
+                if code == 4:
+                    return "wrong-error: op %d: %s failed with a connection error that is not the terminating error" % (k, what)
+                if code == 5:
+                    return "spurious-error: op %d: %s failed with a connection error although the connection has not terminated" % (k, what)
+                if term_seen[side] is not None and term_seen[side] < k and code != 2:
+                    return "accepted: op %d: %s completed with code %d after terminated() had resolved at op %d" % (
+                        k, what, code, term_seen[side])
+                if kind == 8 and code != 2:
+                    return "harness: terminated() answered code %d" % code
+            for tid, (side, kind, at) in sorted(pending.items()):
+                if term_seen[side] is not None:
+                    return "hang: op %d at %d ms: %s of the %s (task %d, started at op %d) is still pending although terminated() of " \
+                           "that endpoint resolved (first seen at op %d)" % (k, now, KINDS_E.get(kind, kind), SIDES_E[side], tid, at, term_seen[side])
+        elif tag == 3:
+            pass
+    return None
+
+
+def nontrivial_connend(case):
+    # some way of ending the connection, with at least two kinds of operation started before it on one endpoint
+    kinds = [set(), set()]
+    for tag, args in case.ops:
+        if tag == 1:
+            kinds[min(args[0], 1)].add(args[1])
+        elif tag == 3 or (tag == 2 and int(case.cfg[0]) == 1 and args[0] >= LONG):
+            return max(len(kinds[0]), len(kinds[1])) >= 2
+    return False
+
+
+def hist_connend(case):
+    out = ["refuse:%s" % case.cfg[0]]
+    adv = 0
+    for tag, args in case.ops:
+        if tag == 2:
+            adv += args[0]
+        elif tag == 3:
+            out.append("close:%s-%s" % (SIDES_E[min(args[0], 1)], "handshaking" if adv < 500 else "established"))
+            break
+    else:
+        out.append("close:none")
+    out += sorted(set("start:%s" % KINDS_E.get(a[1], "?") for t, a in case.ops if t == 1))
+    return out
+
+
+def mutate_connend(rng, case, j):
+    ops = list(case.ops)
+    i = rng.randrange(len(ops) + 1)
+    ops.insert(i, rng.choice([(1, [rng.randint(0, 1), rng.randint(1, 9)]), (3, [rng.randint(0, 1), 5]), (2, [LONG])]))
     return Case("m%d" % j, ops, cfg=case.cfg)
 
 
@@ -577,4 +805,8 @@ STREAMS = [
      "gen": gen_idle, "oracle": oracle_idle, "nontrivial": nontrivial_idle, "hist": hist_idle,
      "mutate": mutate_idle,
      "profiles": ("debug",), "profiles_thorough": ("debug", "release"), "rule": RULE},
+    {"name": "connend", "pkg": "hx", "bin": "impl_connend",
+     "gen": gen_connend, "oracle": oracle_connend, "nontrivial": nontrivial_connend, "hist": hist_connend,
+     "mutate": mutate_connend,
+     "profiles": ("debug",), "profiles_thorough": ("debug",), "rule": RULE},
 ]
